@@ -498,8 +498,35 @@ def find_opt_flatten(nodes, vals):
                 yield from find_opt_flatten(n.enum.body(int(e[1])), e[2:])
 
 
+def ambiguous_enum_value(nodes, vals):
+    """an ignore_case field holds a variant whose printed name also names another variant under case folding
+    (the enum's names are not distinct under the comparison in use: no round trip is claimed)"""
+    import re
+    for n, v in zip(nodes, vals):
+        if isinstance(n, Field):
+            if isinstance(n.T, VEnum) and n.icase:
+                for tok in re.findall(r"\bv(\d+)\b", sx_str(v)):
+                    i = int(tok)
+                    nm = n.T.vname(i).casefold()
+                    if any(j != i and not n.T.variants[j][1] and any(x.casefold() == nm for x in n.T.names(j))
+                           for j in range(len(n.T.variants))):
+                        return True
+        elif isinstance(n, Flatten):
+            inner = None if v == "none" else (v[1] if n.opt else v)
+            if inner is not None and ambiguous_enum_value(n.struct.nodes, inner[1:]):
+                return True
+        else:
+            e = None if v == "none" else (v[1] if n.opt else v)
+            if e is not None and ambiguous_enum_value(n.enum.body(int(e[1])), e[2:]):
+                return True
+    return False
+
+
 def dround_oracle(case, impl):
-    if impl == "unprintable" or DC.BY_NAME[sx_parse(case)[1]].boundary:
+    cv = sx_parse(case)
+    if impl == "unprintable" or DC.BY_NAME[cv[1]].boundary:
+        return None
+    if ambiguous_enum_value(DC.BY_NAME[cv[1]].nodes, cv[3][1:]):
         return None
     p = parts(impl)
     if "same" not in p:
